@@ -211,6 +211,20 @@ def attempt(ev, blobs, case, label, apkt, subject, asubj, pub=None, vkb=None, fi
     res = 'raised' if s is None else sigs.verify_outcome(pub, subject, s)
     ev.append({'k': 'attempt', 'osig': blobs.add(case.pkt), 'osubj': case.subj_desc, 'signer': case.signer, 'asig': asig,
                'asubj': asubj, 'vkb': vkb, 'result': res, 'case': case.name, 'mut': label, 'field': field, 'expect_semantic': semantic})
+    if apkt is None:
+        # the verdict is a function of (key, subject, signature), not of the history of the objects: present the same signature OBJECT
+        # again after it has been accepted once by its own key over its own subject
+        warm = getattr(case, 'warm', None)
+        if warm is None:
+            warm = sigs.parse_sig(case.pkt)
+            if warm is not None:
+                sigs.verify_outcome(case.pub, case.subject, warm)
+            case.warm = warm
+        if warm is not None:
+            res2 = sigs.verify_outcome(pub, subject, warm)
+            ev.append({'k': 'attempt', 'osig': blobs.add(case.pkt), 'osubj': case.subj_desc, 'signer': case.signer, 'asig': asig,
+                       'asubj': asubj, 'vkb': vkb, 'result': res2, 'case': case.name, 'mut': label + ' [signature object accepted once before]', 'field': field,
+                       'expect_semantic': semantic})
     return res
 
 
@@ -513,6 +527,10 @@ def run(ctx):
         mutk = e['mut'].split(' bit ')[0].split(':')[0]
         ctx.violation(clause, 'case=%s field=%s mut=%s' % (e['case'].split('-SHA')[0].split('-MD5')[0].split('-RIPE')[0], e['field'], mutk),
                       {'event': e, 'osig': blobs.table[e['osig'] - 1], 'asig': blobs.table[e['asig'] - 1] if e['asig'] else None})
+    # whole-session walks of spec/Session.tla (protection scopes x signatures x encryption x keyring), this property's clause family
+    from .. import session as _session
+    for _b, _step, _clause, _detail in _session.generate(ctx, 'C01.session')[0]:
+        ctx.violation(_clause, 'session: %s at %s' % (_detail, _b[_step - 1][0]), {'behaviour': [list(x) for x in _b[:_step]]})
     return ctx.finish(level='model_checking',
                       rule='every signature type PGPy emits x every field of Sound.tla (11 semantic, 4 neutral), concretised per algorithm on real '
                            'signatures: every bit of the type / algorithm / hashed-length octets, all or sampled bits of hashed area, signature value, '
